@@ -187,7 +187,10 @@ func processFile(filePath string, ctxt *processors.Context, checkOnly bool) erro
 		line := scanner.Bytes()
 		line, indent, err = processLine(line, indent)
 		if err != nil {
+			// don't write a file that we could not format completely,
+			// the offending line would be lost
 			logger.Error().Err(err).Msgf("failed to format %s", filename)
+			return err
 		}
 		lines = append(lines, string(line))
 	}
